@@ -29,6 +29,13 @@ func main() {
 		fmt.Println("INCONCLUSIVE property=C12 the compiler under test failed on the fixture IDL:", r.Stdout, r.Stderr)
 		os.Exit(2)
 	}
+	// the same IDL once more with the generator's "slim" option (struct-typed
+	// fields are then written through frugal.WriteStructWithContext & co.):
+	// packages vh/gen/slim/base and vh/gen/slim/mainsvc
+	if r := h.Gen("slim", filepath.Join(ev.Root(), "fixtures"), "main.frugal", "slim"); r.ExitCode != 0 || r.TimedOut {
+		fmt.Println("INCONCLUSIVE property=C12 the compiler under test failed on the fixture IDL with -gen go:slim:", r.Stdout, r.Stderr)
+		os.Exit(2)
+	}
 	if err := h.CopySources(filepath.Join(ev.Root(), "harness/e2e"), "e2e"); err != nil {
 		fmt.Println(err)
 		os.Exit(2)
